@@ -12,13 +12,14 @@ from . import explorer
 
 
 class SchedMode:
-    def __init__(self, scenarios, build, judge, backends=("sql", "kv"), deeper=None, tag="sched"):
+    def __init__(self, scenarios, build, judge, backends=("sql", "kv"), deeper=None, tag="sched", max_limit=6000):
         self.scenarios = scenarios
         self.build = build
         self.judge = judge
         self.backends = backends
         self.deeper = deeper or {}
         self.tag = tag
+        self.max_limit = max_limit
 
     def scn(self, name, backend):
         base, _, policy = name.partition("@")
@@ -27,7 +28,7 @@ class SchedMode:
     def cases(self, tier):
         from . import env
 
-        env.boot()
+        env.boot(max_limit=self.max_limit)
         out = []
         for backend in self.backends:
             for name in [n + sfx for n in self.scenarios for sfx in ("", "@fair")]:
